@@ -412,6 +412,235 @@ theorem closed_fieldGroup (g : Bool) (f : Str) (lead : Nat) (occ : Option Occur)
     simp only [fieldGroupOpd, printList, List.length_cons, List.length_append, List.length_nil] at h2 ⊢
     omega
 
+theorem quotedBody_escS (body t : Str) :
+    quotedBody '\'' (escSingle body ++ '\'' :: t) = some (body, t) := by
+  induction body with
+  | nil =>
+    show quotedBody '\'' ('\'' :: t) = some ([], t)
+    unfold quotedBody
+    split
+    · rename_i heq; cases heq
+    · rename_i heq; exact absurd (List.cons.inj heq).1 (by decide)
+    · rename_i heq
+      obtain ⟨rfl, rfl⟩ := List.cons.inj heq
+      simp
+  | cons c rest ih =>
+    by_cases hc : (c == '\'' || c == '\\') = true
+    · have e : escSingle (c :: rest) ++ '\'' :: t = '\\' :: c :: (escSingle rest ++ '\'' :: t) := by
+        simp [escSingle, hc]
+      rw [e]
+      unfold quotedBody
+      split
+      · rename_i heq; cases heq
+      · rename_i heq
+        obtain ⟨_, h2⟩ := List.cons.inj heq
+        obtain ⟨rfl, rfl⟩ := List.cons.inj h2
+        simp [ih]
+      · rename_i hne heq
+        obtain ⟨rfl, rfl⟩ := List.cons.inj heq
+        exact (hne c (escSingle rest ++ '\'' :: t) rfl rfl).elim
+    · have hc' : (c == '\'' || c == '\\') = false := by simpa using hc
+      have h1 : c ≠ '\'' := by intro h; simp [h] at hc'
+      have h2 : c ≠ '\\' := by intro h; simp [h] at hc'
+      have e : escSingle (c :: rest) ++ '\'' :: t = c :: (escSingle rest ++ '\'' :: t) := by
+        simp [escSingle, hc']
+      rw [e]
+      unfold quotedBody
+      split
+      · rename_i heq; cases heq
+      · rename_i heq; exact absurd (List.cons.inj heq).1 h2
+      · rename_i heq
+        obtain ⟨rfl, rfl⟩ := List.cons.inj heq
+        simp [h1, ih]
+
+theorem plainLiteral_phraseS (g : Bool) (body u t : Str) (sl : Nat) (px : Bool)
+    (hu : slopOrPrefix u = ((sl, px), t)) :
+    plainLiteral g ('\'' :: (escSingle body ++ '\'' :: u)) = .ok (.leaf (.literal none body .single sl px)) t := by
+  generalize hx : escSingle body ++ '\'' :: u = x
+  have h1 : fieldName ('\'' :: x) = none := by simp [fieldName, specialChars]
+  have h2 : range ('\'' :: x) = none := by
+    simp [range, skip0, List.dropWhile, isNomSpace, tag, List.isPrefixOf]
+  have h3 : set ('\'' :: x) = none := by
+    simp [set, skip0, List.dropWhile, isNomSpace, tag, List.isPrefixOf]
+  have h4 : exists_ ('\'' :: x) = none := by
+    simp [exists_, skip0, List.dropWhile, isNomSpace]
+  have h5 : regex ('\'' :: x) = none := by simp [regex]
+  have hn : negativeNumber ('\'' :: x) = none := by
+    unfold negativeNumber
+    split
+    · rename_i heq; exact absurd (List.cons.inj heq).1 (by decide)
+    · rfl
+  have hst : simpleTerm ('\'' :: x) = some ((.single, body), u) := by
+    have hq : quotedBody '\'' x = some (body, u) := by
+      rw [← hx]; exact quotedBody_escS body u
+    unfold simpleTerm
+    rw [hn]
+    simp [hq]
+  have h6 : termOrPhrase ('\'' :: x) = some (.literal none body .single sl px, t) := by
+    simp [termOrPhrase, hst, hu]
+  simp [plainLiteral, h1, h2, h3, h4, h5, h6, setField]
+
+/-- a single-quoted phrase of any characters, printed with escapes, optionally with a slop or the
+    prefix star, is a good operand -/
+theorem goodOpd_phraseS (g : Bool) (body : Str) (x : Sfx) (hx : WFSfx x) :
+    GoodOpd g (phraseSOpd body x) := by
+  refine ⟨⟨'\'', escSingle body ++ '\'' :: x.text, rfl, by decide, by decide, by decide, by decide, by decide⟩, ?_, ?_, ?_⟩
+  · intro t _
+    simp [phraseSOpd, binaryOperand, tag, List.isPrefixOf]
+  · intro t ht f hf
+    obtain ⟨f', rfl⟩ : ∃ f', f = f' + 1 := ⟨f - 1, by simp [phraseSOpd] at hf; omega⟩
+    have htext : (phraseSOpd body x).text ++ t = '\'' :: (escSingle body ++ '\'' :: (x.text ++ t)) := by
+      simp [phraseSOpd]
+    rw [htext]
+    have hp := plainLiteral_phraseS g body (x.text ++ t) t _ _ (slopOrPrefix_sfx x hx t ht)
+    generalize escSingle body ++ '\'' :: (x.text ++ t) = y at hp
+    unfold pLeaf
+    simp [R.orElse, tag, List.isPrefixOf, hp, phraseSOpd]
+  · simp [phraseSOpd]; omega
+
+/-- a single-quoted phrase can be boosted -/
+theorem boostable_phraseS (g : Bool) (body : Str) (sx : Sfx) (hs : WFSfx sx) :
+    Boostable g (phraseSOpd body sx) := by
+  refine ⟨⟨'\'', escSingle body ++ '\'' :: sx.text, rfl, by decide, by decide, by decide, by decide, by decide⟩, ?_, ?_, ?_⟩
+  · intro x
+    simp [phraseSOpd, binaryOperand, tag, List.isPrefixOf]
+  · intro x f hf
+    obtain ⟨f', rfl⟩ : ∃ f', f = f' + 1 := ⟨f - 1, by simp [phraseSOpd] at hf; omega⟩
+    have htext : (phraseSOpd body sx).text ++ '^' :: x = '\'' :: (escSingle body ++ '\'' :: (sx.text ++ '^' :: x)) := by
+      simp [phraseSOpd]
+    rw [htext]
+    have hp := plainLiteral_phraseS g body (sx.text ++ '^' :: x) ('^' :: x) _ _ (slopOrPrefix_sfx_hat sx hs x)
+    generalize escSingle body ++ '\'' :: (sx.text ++ '^' :: x) = y at hp
+    unfold pLeaf
+    simp [R.orElse, tag, List.isPrefixOf, hp, phraseSOpd]
+  · simp [phraseSOpd]; omega
+
+/-- `name:'phrase'` is a good operand -/
+theorem goodOpd_fieldPhraseS (g : Bool) (f body : Str) (x : Sfx) (hf : PlainWord f) (hx : WFSfx x) :
+    GoodOpd g (fieldPhraseSOpd f body x) := by
+  obtain ⟨c, r, rfl⟩ := List.exists_cons_of_ne_nil hf.ne
+  have hc : plain c = true := hf.all c (by simp)
+  refine ⟨⟨c, r ++ ':' :: '\'' :: (escSingle body ++ '\'' :: x.text), rfl, (plain_not_space c hc).2,
+    plain_ne c ':' hc (by decide), plain_ne c '+' hc (by decide), plain_ne c '-' hc (by decide),
+    plain_ne c ')' hc (by decide)⟩, ?_, ?_, ?_⟩
+  · intro t _
+    have e : (fieldPhraseSOpd (c :: r) body x).text ++ t
+        = (c :: r) ++ ':' :: ('\'' :: (escSingle body ++ '\'' :: (x.text ++ t))) := by
+      simp [fieldPhraseSOpd]
+    rw [e]
+    exact binaryOperand_field (c :: r) _ hf
+  · intro t ht f hfu
+    obtain ⟨f', rfl⟩ : ∃ f', f = f' + 1 := ⟨f - 1, by simp [fieldPhraseSOpd] at hfu; omega⟩
+    have e : (fieldPhraseSOpd (c :: r) body x).text ++ t
+        = c :: (r ++ ':' :: ('\'' :: (escSingle body ++ '\'' :: (x.text ++ t)))) := by
+      simp [fieldPhraseSOpd]
+    rw [e]
+    have hp := plainLiteral_phraseS g body (x.text ++ t) t _ _ (slopOrPrefix_sfx x hx t ht)
+    generalize escSingle body ++ '\'' :: (x.text ++ t) = y at hp
+    exact pLeaf_field g f' c r _ hf _ t
+      (plainLiteral_field g c r _ hf (by simp [skip0, List.dropWhile, isNomSpace])
+        (by simp [fieldName, specialChars]) _ _ _ _ t hp)
+  · simp [fieldPhraseSOpd]; omega
+
+/-- `*` can be boosted -/
+theorem boostable_all (g : Bool) : Boostable g allOpd := by
+  refine ⟨⟨'*', [], rfl, by decide, by decide, by decide, by decide, by decide⟩, ?_, ?_, ?_⟩
+  · intro x
+    simp [allOpd, binaryOperand, tag, List.isPrefixOf]
+  · intro x f hf
+    obtain ⟨f', rfl⟩ : ∃ f', f = f' + 1 := ⟨f - 1, by simp [allOpd] at hf; omega⟩
+    show pLeaf g (f' + 1) ('*' :: '^' :: x) = .ok (.leaf .all) ('^' :: x)
+    unfold pLeaf
+    simp [R.orElse, allAhead, escapeInWord, isNomSpace]
+  · simp [allOpd]
+
+theorem leafAlt_star_hat (x : Str) : leafAlt ('*' :: '^' :: x) = some (.exists [], '^' :: x) := by
+  have h2 : range ('*' :: '^' :: x) = none := by
+    simp [range, skip0, List.dropWhile, isNomSpace, tag, List.isPrefixOf]
+  have h3 : set ('*' :: '^' :: x) = none := by
+    simp [set, skip0, List.dropWhile, isNomSpace, tag, List.isPrefixOf]
+  have h4 : exists_ ('*' :: '^' :: x) = some ('^' :: x) := by
+    have : isUniSpace '^' = false := by decide
+    simp [exists_, skip0, List.dropWhile, isNomSpace, existsAhead, escapeInWord, this]
+  simp [leafAlt, h2, h3, h4]
+
+/-- `name:*` can be boosted -/
+theorem boostable_exists (g : Bool) (f : Str) (hf : PlainWord f) : Boostable g (existsOpd f) := by
+  obtain ⟨c, r, rfl⟩ := List.exists_cons_of_ne_nil hf.ne
+  have hc : plain c = true := hf.all c (by simp)
+  refine ⟨⟨c, r ++ [':', '*'], rfl, (plain_not_space c hc).2, plain_ne c ':' hc (by decide),
+    plain_ne c '+' hc (by decide), plain_ne c '-' hc (by decide), plain_ne c ')' hc (by decide)⟩, ?_, ?_, ?_⟩
+  · intro x
+    have e : (existsOpd (c :: r)).text ++ '^' :: x = (c :: r) ++ ':' :: ('*' :: '^' :: x) := by simp [existsOpd]
+    rw [e]
+    exact binaryOperand_field (c :: r) _ hf
+  · intro x fu hfu
+    obtain ⟨f', rfl⟩ : ∃ f', fu = f' + 1 := ⟨fu - 1, by simp [existsOpd] at hfu; omega⟩
+    have e : (existsOpd (c :: r)).text ++ '^' :: x = c :: (r ++ ':' :: ('*' :: '^' :: x)) := by simp [existsOpd]
+    rw [e]
+    refine pLeaf_field g f' c r _ hf _ _ ?_
+    rw [plainLiteral_eq, fieldName_field c r ('*' :: '^' :: x) hf (by simp [skip0, List.dropWhile, isNomSpace])]
+    simp [leafAlt_star_hat x, setField, existsOpd]
+  · simp [existsOpd]; omega
+
+/-- `NOT x` can be boosted when `x` can (the boost applies to the `NOT` clause) -/
+theorem boostable_not (g : Bool) (k : Nat) (o : Opd) (ho : Boostable g o) : Boostable g (notOpd k o) := by
+  refine ⟨⟨'N', 'O' :: 'T' :: ' ' :: (spaces k ++ o.text), rfl, by decide, by decide, by decide, by decide, by decide⟩,
+    ?_, ?_, ?_⟩
+  · intro x
+    simp [notOpd, binaryOperand, tag, List.isPrefixOf]
+  · intro x f hf
+    simp only [notOpd] at hf
+    obtain ⟨f', rfl⟩ : ∃ f', f = f' + 1 := ⟨f - 1, by omega⟩
+    have hp := ho.parse x f' (by omega)
+    obtain ⟨c, r, hcr, hsp, _⟩ := ho.head
+    have hsk : skip0 (' ' :: (spaces k ++ (o.text ++ '^' :: x))) = o.text ++ '^' :: x := by
+      have := skip0_spaces (k + 1) (o.text ++ '^' :: x) (by
+        intro c' r' h'
+        rw [hcr] at h'
+        simp only [List.cons_append, List.cons.injEq] at h'
+        rw [← h'.1]; exact hsp)
+      simpa [spaces, List.replicate_succ] using this
+    have htext : (notOpd k o).text ++ '^' :: x = 'N' :: 'O' :: 'T' :: ' ' :: (spaces k ++ (o.text ++ '^' :: x)) := by
+      simp [notOpd]
+    have hs1 := skip1_space (spaces k ++ (o.text ++ '^' :: x))
+    rw [hsk] at hs1
+    rw [htext]
+    generalize o.text ++ '^' :: x = X at hp hs1
+    generalize spaces k ++ X = Y at hs1
+    unfold pLeaf
+    simp [R.orElse, tag, List.isPrefixOf, hs1, hp, R.map, notOpd]
+  · have := ho.small
+    simp only [notOpd, List.length_cons, List.length_append]
+    omega
+
+/-- operands at leaf level that can be followed by a boost (everything except elastic ranges, whose
+    relaxed bound would swallow the `^`, and groups, which have their own constructors) -/
+inductive BoostKind : Opd → Prop where
+  | word (w : Str) (hw : PlainWord w) : BoostKind (wordOpd w)
+  | fieldWord (f w : Str) (hf : PlainWord f) (hw : PlainWord w) : BoostKind (fieldWordOpd f w)
+  | phrase (body : Str) (sx : Sfx) (hs : WFSfx sx) : BoostKind (phraseEscOpd body sx)
+  | fieldPhrase (f body : Str) (sx : Sfx) (hf : PlainWord f) (hs : WFSfx sx) : BoostKind (fieldPhraseEscOpd f body sx)
+  | phraseS (body : Str) (sx : Sfx) (hs : WFSfx sx) : BoostKind (phraseSOpd body sx)
+  | all : BoostKind allOpd
+  | existsField (f : Str) (hf : PlainWord f) : BoostKind (existsOpd f)
+  | range (lo hi : Bool) (w1 w2 : Str) (h1 : PlainBound w1) (h2 : PlainBound w2) : BoostKind (rangeOpd lo hi w1 w2)
+  | set (k0 k1 : Nat) (w : Str) (more : List (Nat × Str)) (h : PlainElems w more) : BoostKind (setOpd k0 k1 w more)
+  | not (k : Nat) (o : Opd) (h : BoostKind o) : BoostKind (notOpd k o)
+
+theorem boostKind_boostable (g : Bool) (o : Opd) (h : BoostKind o) : Boostable g o := by
+  induction h with
+  | word w hw => exact boostable_word g w hw
+  | fieldWord f w hf hw => exact boostable_fieldWord g f w hf hw
+  | phrase body sx hs => exact boostable_phrase g body sx hs
+  | fieldPhrase f body sx hf hs => exact boostable_fieldPhrase g f body sx hf hs
+  | phraseS body sx hs => exact boostable_phraseS g body sx hs
+  | all => exact boostable_all g
+  | existsField f hf => exact boostable_exists g f hf
+  | range lo hi w1 w2 h1 h2 => exact (closed_range g lo hi w1 w2 h1 h2).toBoostable
+  | set k0 k1 w more h => exact (closed_set g k0 k1 w more h).toBoostable
+  | not k o _ ih => exact boostable_not g k o ih
+
 /-- items of a list with boosts: `b = false` for an operand at leaf level, `b = true` for a boosted one -/
 inductive WFB : Bool → Opd → Prop where
   | base (o : Opd) (h : WFOpd o) : WFB false o
@@ -425,6 +654,9 @@ inductive WFB : Bool → Opd → Prop where
       (bm : PItem → Bool) (hf : PlainWord f) (ho : WFB bo o) (hm : ∀ it ∈ more, WFB (bm it) it.opd)
       (b : BoostLit) (hb : WFBoost b) : WFB true (boostOpd (fieldGroupOpd f lead occ o more k) b)
   | not (k : Nat) (o : Opd) (ho : WFB false o) : WFB false (notOpd k o)
+  | phraseS (body : Str) (sx : Sfx) (hs : WFSfx sx) : WFB false (phraseSOpd body sx)
+  | fieldPhraseS (f body : Str) (sx : Sfx) (hf : PlainWord f) (hs : WFSfx sx) : WFB false (fieldPhraseSOpd f body sx)
+  | boostKind (o : Opd) (h : BoostKind o) (b : BoostLit) (hb : WFBoost b) : WFB true (boostOpd o b)
   | boostGroup (lead : Nat) (occ : Option Occur) (o : Opd) (more : List PItem) (k : Nat) (bo : Bool)
       (bm : PItem → Bool) (ho : WFB bo o) (hm : ∀ it ∈ more, WFB (bm it) it.opd) (b : BoostLit) (hb : WFBoost b) :
       WFB true (boostOpd (groupOpd lead occ o more k) b)
@@ -461,6 +693,14 @@ theorem wfb_good (g : Bool) (bo : Bool) (o : Opd) (h : WFB bo o) :
   | not k o _ ih =>
     have := goodOpd_not g k o (ih.2 rfl)
     exact ⟨this.toItem, fun _ => this⟩
+  | phraseS body sx hs =>
+    have := goodOpd_phraseS g body sx hs
+    exact ⟨this.toItem, fun _ => this⟩
+  | fieldPhraseS f body sx hf hs =>
+    have := goodOpd_fieldPhraseS g f body sx hf hs
+    exact ⟨this.toItem, fun _ => this⟩
+  | boostKind o h b hb =>
+    exact ⟨goodItem_boost g _ b (boostKind_boostable g o h) hb, fun h => Bool.noConfusion h⟩
   | boostGroup lead occ o more k bo bm _ _ b hb iho ihm =>
     exact ⟨goodItem_boost g _ b (closed_group g lead occ o more k iho.1 (fun it hi => (ihm it hi).1)).toBoostable hb,
       fun h => Bool.noConfusion h⟩
